@@ -274,6 +274,13 @@ impl<'a> Parser<'a> {
                     let value = self.parse_value()?;
 
                     object.push((key, value));
+
+                    // A member must be followed by a comma or the end of the object
+                    self.flush_whitespace();
+                    match self.chars.peek() {
+                        Some(&',') | Some(&'}') | None => (),
+                        Some(_) => return Err(self.traceback(ParseError::InvalidToken)),
+                    }
                 }
                 None => return Err(self.traceback(ParseError::UnexpectedEOF)),
             }
